@@ -1,3 +1,4 @@
 import PalomaModel.Model.Libcons
 import PalomaModel.Model.Bridge
 import PalomaModel.Model.Abi
+import PalomaModel.Model.Mempool
